@@ -114,6 +114,13 @@ def main(argv):
                         'tier': tier,
                     }
                 )
+    if replay_file is None:
+        fuzz_s = float(os.environ.get('VERIF_FUZZ_S', '300' if tier == 'thorough' else '0'))
+        if fuzz_s > 0:
+            for fam in fams:
+                if fam.fuzz:
+                    for i in range(2):
+                        jobs.append({'prop': prop, 'family': fam.name, 'engine': 'fuzz', 'mode': 'fuzz', 'seconds': fuzz_s, 'seed': derive_seed(base_seed, prop, fam.name, 'fuzz', i), 'modules': list(fam.fuzz), 'budget_s': fuzz_s + 60})
     for k, j in enumerate(jobs):
         j['out'] = os.path.join(work, f'shard_{k}.json')
 
@@ -127,7 +134,7 @@ def main(argv):
             j = pending.pop(0)
             log = open(j['out'] + '.log', 'w')
             p = subprocess.Popen(
-                [sys.executable, '-m', 'vf.shard', json.dumps(j)], cwd=ROOT, env=env, stdout=log, stderr=subprocess.STDOUT
+                [sys.executable, '-m', 'vf.fuzzshard' if j['mode'] == 'fuzz' else 'vf.shard', json.dumps(j)], cwd=ROOT, env=env, stdout=log, stderr=subprocess.STDOUT
             )
             running.append((p, j, log, time.monotonic()))
         time.sleep(0.05)
@@ -178,6 +185,10 @@ def main(argv):
         )
         if j['mode'] == 'replay':
             fa['replayed'] += o['evaluations']
+        if j['mode'] == 'fuzz':
+            fa['atheris_evaluations'] = fa.get('atheris_evaluations', 0) + o['evaluations']
+            if o.get('skipped_reason'):
+                fa['atheris_skipped'] = o['skipped_reason'][:200]
         fa['evaluations'] += o['evaluations']
         fa['nontrivial'].update(o['nontrivial'])
         fa['inconclusive'] += o['inconclusive']
@@ -238,6 +249,10 @@ def main(argv):
             'max_observed': fa['metrics'],
             'rule': fa['rule'],
         }
+        if 'atheris_evaluations' in fa:
+            fam_out[name]['atheris_evaluations'] = fa['atheris_evaluations']
+        if 'atheris_skipped' in fa:
+            fam_out[name]['atheris_skipped'] = fa['atheris_skipped']
     evidence = {
         'property_id': prop,
         'tier': tier,
